@@ -29,6 +29,7 @@ META["claim"] += " " + "Also: the transport's own errors (ssl.SSLError variants,
 META["claim"] += " " + "Round 4: status tokens that isdigit()/isnumeric() accept and int() does not, digit strings beyond int()'s limit; 3-5 connections sharing the process-wide cookie jar with 35 well-formed, odd and malformed Set-Cookie lines; ambient conditions drawn per connection in the frame phase."
 META["claim"] += " " + 'Round 5: the replies of an HTTP proxy to CONNECT (13 status lines x 23 header lines, incl. challenges without parameters).'
 META["claim"] += " " + 'Rounds 6-7: thousands of interim responses, illegal cookie names, hosts the resolver cannot encode; every byte inside / before / after the host of a redirect target; error bodies described with 31 charset parameters, odd media types and encodings.'
+META["claim"] += " " + 'Round 8: redirects behind a proxy that grants every CONNECT (unencodable ws / wss hosts); hosts built to make a pattern backtrack, with a CPU-time guard per case (a spin inside C code is reported as cpu-spin).'
 
 INTERESTING = [0x00, 0x01, 0x09, 0x0A, 0x0D, 0x20, 0x2F, 0x30, 0x31, 0x3A, 0x41, 0x48, 0x54, 0x7F, 0x80, 0x81, 0x88, 0x89, 0x8A, 0xC0, 0xE2, 0xF0, 0xFE, 0xFF]
 VALID_HEAD = b"HTTP/1.1 101 Switching Protocols\r\nUpgrade: websocket\r\nConnection: Upgrade\r\nSec-WebSocket-Accept: %ACCEPT%\r\n\r\n"
